@@ -324,9 +324,19 @@ pub fn program(rng: &mut Rng, luau: bool) -> String {
         out.push_str("-- header comment\n");
     }
     while k < n {
-        match rng.below(16) {
+        match rng.below(18) {
             0 => out.push('\n'),
             1 => out.push_str("-- a comment line\n"),
+            16 => {
+                // a block comment on a line of its own, possibly followed by an empty line
+                out.push_str(if rng.chance(1, 3) { "--[[ a block\n     comment ]]\n" } else { "--[[ a block comment ]]\n" });
+                if rng.chance(1, 2) {
+                    out.push('\n');
+                }
+            }
+            17 => {
+                out.push_str("-- a comment line\n\n");
+            }
             2 => out.push_str(&format!("local other{k} = {k}\n")),
             3 => {
                 if rng.chance(1, 2) {
